@@ -12,7 +12,7 @@ from __future__ import annotations
 import collections
 
 from .e1 import Explorer, State
-from .view import take_view
+from .view import msg_label, take_view
 from .world import HOOKS, pack, unpack
 
 
@@ -162,6 +162,7 @@ class CrashEngine:
         """order 'restart-first': restart, sweep, drain, expire, drain.
         order 'expire-first': expire, restart, sweep, drain."""
         st = self.state_at(snap, ec)
+        self.last_crash_queue = [msg_label(st.view, m) for m in st.view.queue]
         sw = ["sweep"] * sweeps
         if order == "restart-first":
             st, led1, sn1 = self.drive(st, record=record, pre_actions=sw)
